@@ -96,7 +96,10 @@ def describe(T: str, root_resolved: str, jail_abs: str, exts) -> dict:
         done.add(c)
         entries = []
         try:
-            it = list(os.scandir(c))
+            # get_files goes through the sub-directories of a directory by NAME (it sorts what os.walk hands it), so that an alias
+            # directory is named the same in every build; the model gets the listing in the order the code uses. (The order of
+            # the plain files of a directory does not matter to either: yielded paths are compared as multisets.)
+            it = sorted(os.scandir(c), key=lambda e: e.name)
         except OSError:
             continue
         for e in it:
